@@ -17,7 +17,7 @@
    their conclusions: the results are functions of the data alone. *)
 From Coq Require Import List NArith Arith Lia.
 From NV Require Import Io.Source Io.ReadExact Io.ReadExactProofs Io.BufReader Io.BufReaderProofs
-  Io.Prog Io.ProgProofs Io.IndexProg Io.IndexProgProofs Io.ProgCram Io.ProgRun Io.ProgRunProofs Io.CsiProg Io.CsiProgProofs Io.HeaderAdapter Io.HeaderAdapterProofs Io.SeqRead Io.SeqReadProofs Io.SeqRun Io.SeqRunProofs
+  Io.Prog Io.ProgProofs Io.IndexProg Io.IndexProgProofs Io.ProgCram Io.ProgRun Io.ProgRunProofs Io.CsiProg Io.CsiProgProofs Io.HeaderAdapter Io.HeaderAdapterProofs Io.SeqRead Io.SeqReadProofs Io.SeqRun Io.SeqRunProofs Io.TabixProg Io.TabixProgProofs
   Io.FastaScan Io.FastaScanProofs Io.FastaIndex Io.FastaIndexProofs Io.FastqRead Io.FastqReadProofs Io.HeaderRead Io.HeaderReadProofs Io.BgzfRead Io.BgzfReadProofs Io.BedRead Io.BedReadProofs Io.BedBridge Io.TabRead Io.TabReadProofs Io.Run Io.RunProofs.
 From NV Require Fasta.Layout Fasta.Indexer Fasta.WholeFile Fasta.Fastq Bgzf.Frame Bgzf.Reader Bgzf.ReaderOps
   Text.TextBase Text.BedRec Index.Layout Index.CsiLayout Index.TextIndex Trunc.Stream Trunc.Cram CramIdx.AsyncQuery Bgzf.Crc32.
@@ -806,6 +806,52 @@ Theorem c12_cram_containers_any_delivery :
 Proof. exact run_cram_spec. Qed.
 Print Assumptions c12_cram_containers_any_delivery.
 
+(* ---- tabix::io::Reader::read_index stacked on the BGZF block reader (NV.Io.TabixProg) ------------ *)
+(* the layer above the block reader: read_index (magic, n_ref, csi read_header, bins / chunks /
+   metadata / intervals, optional n_no_coor) over ANY delivery of the decompressed bytes returns
+   what it returns on the whole bytes, error result and bytes consumed included *)
+Theorem c12_tabix_body_any_delivery : forall data sc cap chunk,
+  run_tabix_plain cap chunk (mkSource data sc)
+  = (cres_of (fst (run_pure p_tabix data)), length (snd (run_pure p_tabix data))).
+Proof. exact run_tabix_plain_spec. Qed.
+Print Assumptions c12_tabix_body_any_delivery.
+
+(* the stack: read_index over the BGZF frames read from ANY delivery (raw or behind a BufReader of
+   any capacity) of the COMPRESSED bytes = over the frames of the whole buffer, where a corrupt or
+   truncated block is the terminal outcome of the decompressed stream ([run_term]) *)
+Theorem c12_tabix_over_bgzf_any_delivery : forall inflate data sc cap,
+  run_tabix inflate cap (mkSource data sc) = whole_over_bgzf p_tabix inflate data.
+Proof. exact run_tabix_spec. Qed.
+Print Assumptions c12_tabix_over_bgzf_any_delivery.
+
+(* the same for every read program (CSI, BAI-in-BGZF, ...) *)
+Theorem c12_prog_over_bgzf_any_delivery : forall (A : Type) (p : prog A) inflate data sc cap,
+  run_over_bgzf p inflate cap (mkSource data sc) = whole_over_bgzf p inflate data.
+Proof. exact run_over_bgzf_spec. Qed.
+Print Assumptions c12_prog_over_bgzf_any_delivery.
+
+(* a program whose reads are all satisfied by the good blocks does not see how the stream ends
+   afterwards; a stream that ends with a frame cut short (UnexpectedEof) is a clean end for the
+   caller; on a clean end run_term is run_pure *)
+Theorem c12_terminal_error_seen_only_when_reached : forall (A : Type) (p : prog A) d t,
+  (fits p d -> run_term t p d = run_pure p d)
+  /\ run_term (Some Trunc.Stream.UnexpectedEof) p d = run_pure p d
+  /\ run_term None p d = run_pure p d.
+Proof.
+  intros A p d t. split; [apply run_term_fits|]. split; [apply run_term_eof|apply run_term_none].
+Qed.
+Print Assumptions c12_terminal_error_seen_only_when_reached.
+
+(* a well-formed BGZF stream: read_index over any delivery of the file is the plain program on the
+   concatenated block data *)
+Theorem c12_tabix_clean_stream : forall inflate data sc cap fs,
+  whole_frames inflate (Datatypes.S (length data)) data = (fs, Bgzf.Frame.Ok tt) ->
+  run_tabix inflate cap (mkSource data sc)
+  = let d := concat (map Bgzf.ReaderOps.fdata fs) in
+    (cres_of (fst (run_pure p_tabix d)), length (snd (run_pure p_tabix d))).
+Proof. exact run_tabix_clean. Qed.
+Print Assumptions c12_tabix_clean_stream.
+
 (* ---- non-vacuity *)
 (* a script with 1-byte deliveries and an Interrupted in the middle: read_exact 4 of "abcdef" *)
 Example c12_example_read_exact :
@@ -923,4 +969,21 @@ Example c12_example_read_programs :
   let b := [66; 65; 73; 1; 0; 0; 0; 0; 4; 0; 0; 0; 0; 0; 0; 0]%N in
   fst (run_bai 0 (mkSource b [Deliver 1; Interrupted])) = COk (Layout.mkbai [] (Some 4%N)) /\
   run_bai 2 (mkSource (firstn 13 b) [Deliver 1]) = (COk (Layout.mkbai [] None), 0).
+Proof. vm_compute. repeat split. Qed.
+
+(* tabix read_index on decompressed data that ends with a terminal outcome: a header without
+   references; the trailing count is read when it is there (a corrupt LATER block is not reached),
+   dropped when the stream ends cleanly or with a frame cut short, and a corrupt next block is the
+   result when the count has to be looked for in it *)
+Example c12_example_tabix_terminal :
+  let h := [84; 66; 73; 1; 0; 0; 0; 0; 2; 0; 0; 0; 1; 0; 0; 0; 2; 0; 0; 0; 0; 0; 0; 0;
+            35; 0; 0; 0; 0; 0; 0; 0; 0; 0; 0; 0]%N in
+  let hd := CsiLayout.mkhdr CsiLayout.FVcf 0 1 None 35 0 [] in
+  fst (run_term (Some Trunc.Stream.InvalidData) p_tabix (h ++ [7; 0; 0; 0; 0; 0; 0; 0]%N))
+    = RVal (CsiLayout.mktbi (Some hd) [] (Some 7%N)) /\
+  fst (run_term None p_tabix h) = RVal (CsiLayout.mktbi (Some hd) [] None) /\
+  fst (run_term (Some Trunc.Stream.UnexpectedEof) p_tabix (h ++ [7; 0; 0]%N))
+    = RVal (CsiLayout.mktbi (Some hd) [] None) /\
+  fst (run_term (Some Trunc.Stream.InvalidData) p_tabix h) = RErr Trunc.Stream.InvalidData /\
+  fst (run_term None p_tabix (firstn 30 h)) = RErr Trunc.Stream.InvalidData.
 Proof. vm_compute. repeat split. Qed.
